@@ -35,6 +35,8 @@ func (Driver) Info() core.Info {
 			"poison case = the same with one part replaced by an unknown value (any refinement), a marked value or an infinity (5 representations): must be an error without bytes, also through SimpleJSONValue. " +
 			"document case = JSON text rendered from a grammar (nested nulls, number spellings with <=40 digits and |exp|<=350, all escape forms, NFC/NFD twins in strings and names, repeated member names, random whitespace) " +
 			"-> ImpliedType vs structural type -> Unmarshal -> Marshal compared up to key order, number spelling, NFC; the same through SimpleJSONValue.UnmarshalJSON/MarshalJSON. " +
+			"history = the last 8 results of Marshal / MarshalJSON are retained as returned next to a private copy and compared after every later library call, re-decoded when they leave the window; decoded values are retained with their fingerprint; " +
+			"concurrent stage (one per batch) = 4 goroutines x Marshal->Unmarshal on disjoint values compared with the sequential baseline. " +
 			"A fixed corpus (boundary numbers of every class alone and under every single-placeholder constraint, escapes, nulls of every kind, witnesses of F-32/F-33/F-34 and of the non-NFC-name defect) runs in batch 0. " +
 			"distinct = hash of (value, constraint) or of the document bytes; non-trivial = every stage up to the final comparison was executed on an in-domain input",
 		Assumptions: []string{
@@ -78,6 +80,8 @@ func (Driver) Run(c *core.Ctx) {
 	if c.Batch == 0 {
 		runCorpus(c, corpusBase)
 	}
+	concurrentStage(c)
+	hist.flush(c)
 }
 
 func maxDepth(c *core.Ctx, r *core.Rand) int {
@@ -271,6 +275,7 @@ func poisonCase(c *core.Ctx, idx int64, v cty.Value, con cty.Type, kind string) 
 	var err error
 	o := core.Guard(func() { bs, err = ctyjson.Marshal(v, con) })
 	c.Eval(1)
+	hist.after(c)
 	c.Count("clause:unrepresentable-is-an-error")
 	c.Distinct(desc(), true)
 	switch {
@@ -286,6 +291,7 @@ func poisonCase(c *core.Ctx, idx int64, v cty.Value, con cty.Type, kind string) 
 	var serr error
 	o = core.Guard(func() { sb, serr = stdjson.Marshal(ctyjson.SimpleJSONValue{Value: v}) })
 	c.Eval(1)
+	hist.after(c)
 	switch {
 	case o.Panicked:
 		c.Violate("json.SimpleJSONValue", "panic: "+core.PanicClass(o.PanicMsg), "k0/"+kind, desc(), o.PanicMsg+"\n"+o.Stack)
@@ -502,6 +508,7 @@ func roundTrip(c *core.Ctx, idx int64, v cty.Value, con cty.Type, simple bool) {
 	var err error
 	o := core.Guard(func() { bs, err = ctyjson.Marshal(v, con) })
 	c.Eval(1)
+	hist.after(c)
 	c.Count("op:Marshal")
 	if o.Panicked {
 		c.Distinct(desc(), false)
@@ -513,6 +520,7 @@ func roundTrip(c *core.Ctx, idx int64, v cty.Value, con cty.Type, simple bool) {
 		c.Violate("json.Marshal", "error for a known, unmarked, capsule-free value that conforms to the constraint", class, desc(), err.Error())
 		return
 	}
+	held := hist.hold(c, "json.Marshal", bs, con, desc)
 	// clause: valid JSON
 	c.Count("clause:valid-json")
 	if !stdjson.Valid(bs) {
@@ -539,6 +547,7 @@ func roundTrip(c *core.Ctx, idx int64, v cty.Value, con cty.Type, simple bool) {
 	var got cty.Value
 	o = core.Guard(func() { got, err = ctyjson.Unmarshal(bs, con) })
 	c.Eval(1)
+	hist.after(c)
 	c.Count("op:Unmarshal")
 	if o.Panicked {
 		c.Distinct(desc(), false)
@@ -557,6 +566,8 @@ func roundTrip(c *core.Ctx, idx int64, v cty.Value, con cty.Type, simple bool) {
 		return
 	}
 	c.Distinct(desc(), true)
+	held.setDecoded(got)
+	hist.holdValue(c, got, desc)
 	if w := mon.WellFormed(got); w != "" {
 		c.CrossNote("C06", "json.Unmarshal: "+w, desc())
 	}
@@ -616,6 +627,17 @@ func roundTrip(c *core.Ctx, idx int64, v cty.Value, con cty.Type, simple bool) {
 // with the implied type: "the same data but not necessarily the same type".
 func simpleCase(c *core.Ctx, v cty.Value, desc func() string) {
 	c.Count("clause:SimpleJSONValue")
+	{
+		// MarshalJSON called directly: encoding/json copies what it gets, the direct caller does not
+		var mb []byte
+		var merr error
+		o := core.Guard(func() { mb, merr = ctyjson.SimpleJSONValue{Value: v}.MarshalJSON() })
+		c.Eval(1)
+		hist.after(c)
+		if !o.Panicked && merr == nil {
+			hist.hold(c, "json.SimpleJSONValue", mb, v.Type(), desc)
+		}
+	}
 	type holder struct {
 		Name  string                  `json:"name"`
 		Value ctyjson.SimpleJSONValue `json:"value"`
@@ -624,6 +646,7 @@ func simpleCase(c *core.Ctx, v cty.Value, desc func() string) {
 	var err error
 	o := core.Guard(func() { bs, err = stdjson.Marshal(holder{"x", ctyjson.SimpleJSONValue{Value: v}}) })
 	c.Eval(1)
+	hist.after(c)
 	if o.Panicked {
 		c.Violate("json.SimpleJSONValue", "panic: "+core.PanicClass(o.PanicMsg), "k0", desc(), o.PanicMsg+"\n"+o.Stack)
 		return
@@ -635,6 +658,7 @@ func simpleCase(c *core.Ctx, v cty.Value, desc func() string) {
 	var h holder
 	o = core.Guard(func() { err = stdjson.Unmarshal(bs, &h) })
 	c.Eval(1)
+	hist.after(c)
 	if o.Panicked {
 		c.Violate("json.SimpleJSONValue", "panic: "+core.PanicClass(o.PanicMsg), "k0", desc(), "bytes "+clipStr(string(bs), 400)+"\n"+o.PanicMsg+"\n"+o.Stack)
 		return
@@ -791,6 +815,7 @@ func checkDoc(c *core.Ctx, idx int64, doc []byte) {
 	var err error
 	o := core.Guard(func() { ty, err = ctyjson.ImpliedType(doc) })
 	c.Eval(1)
+	hist.after(c)
 	if o.Panicked {
 		c.Violate("json.ImpliedType", "panic: "+core.PanicClass(o.PanicMsg), class, desc(), o.PanicMsg+"\n"+o.Stack)
 		return
@@ -803,6 +828,7 @@ func checkDoc(c *core.Ctx, idx int64, doc []byte) {
 			var v cty.Value
 			o = core.Guard(func() { v, err = ctyjson.Unmarshal(doc, ty) })
 			c.Eval(1)
+			hist.after(c)
 			if o.Panicked {
 				c.Violate("json.Unmarshal", "panic: "+core.PanicClass(o.PanicMsg), class+"/conflicting", desc(), o.PanicMsg+"\n"+o.Stack)
 			} else if err == nil {
@@ -826,6 +852,7 @@ func checkDoc(c *core.Ctx, idx int64, doc []byte) {
 	var v cty.Value
 	o = core.Guard(func() { v, err = ctyjson.Unmarshal(doc, ty) })
 	c.Eval(1)
+	hist.after(c)
 	c.Count("clause:unmarshal-with-the-implied-type-succeeds")
 	if o.Panicked {
 		c.Distinct(string(doc), false)
@@ -846,6 +873,7 @@ func checkDoc(c *core.Ctx, idx int64, doc []byte) {
 	var out []byte
 	o = core.Guard(func() { out, err = ctyjson.Marshal(v, ty) })
 	c.Eval(1)
+	hist.after(c)
 	c.Count("clause:re-marshalled-document-is-the-same-document")
 	c.Distinct(string(doc), f.containers > 0 || f.numbers > 0)
 	switch {
@@ -856,12 +884,15 @@ func checkDoc(c *core.Ctx, idx int64, doc []byte) {
 		c.Violate("json.Marshal", "error re-marshalling a decoded document", class, desc(), err.Error())
 		return
 	}
+	hist.hold(c, "json.Marshal", out, ty, desc).setDecoded(v)
+	hist.holdValue(c, v, desc)
 	compareDocs(c, "json.Marshal", class, desc, f, out)
 
 	// the same through SimpleJSONValue (encoding/json integration)
 	var sv ctyjson.SimpleJSONValue
 	o = core.Guard(func() { err = stdjson.Unmarshal(doc, &sv) })
 	c.Eval(1)
+	hist.after(c)
 	c.Count("clause:SimpleJSONValue(document)")
 	switch {
 	case o.Panicked:
@@ -876,6 +907,7 @@ func checkDoc(c *core.Ctx, idx int64, doc []byte) {
 	}
 	o = core.Guard(func() { out, err = stdjson.Marshal(sv) })
 	c.Eval(1)
+	hist.after(c)
 	switch {
 	case o.Panicked:
 		c.Violate("json.SimpleJSONValue", "panic: "+core.PanicClass(o.PanicMsg), class, desc(), o.PanicMsg+"\n"+o.Stack)
